@@ -34,6 +34,20 @@ namespace vz { std::atomic<long> g_factory_calls{0}; }
 
 namespace {
 
+// schedule tokens spell a NUL inside a zone name as "%00"
+std::string Unesc(const std::string& s) {
+  std::string o;
+  for (size_t i = 0; i < s.size(); ++i) {
+    if (s.compare(i, 3, "%00") == 0) { o.push_back('\0'); i += 2; } else o.push_back(s[i]);
+  }
+  return o;
+}
+std::string Esc(const std::string& s) {
+  std::string o;
+  for (char c : s) { if (c == '\0') o += "%00"; else o.push_back(c); }
+  return o;
+}
+
 std::mutex g_mu;
 std::condition_variable g_cv;
 thread_local int t_index = -1;                 // worker index of the current thread
@@ -50,7 +64,7 @@ std::unique_ptr<cctz::ZoneInfoSource> ParkingFactory(
   const int me = t_index;
   {
     std::unique_lock<std::mutex> l(g_mu);
-    g_log.push_back("E" + std::to_string(me) + ":" + name);
+    g_log.push_back("E" + std::to_string(me) + ":" + Esc(name));
     const int now = ++g_inside;
     if (now > g_max_inside) g_max_inside = now;
     if (g_park) {
@@ -61,7 +75,7 @@ std::unique_ptr<cctz::ZoneInfoSource> ParkingFactory(
       g_parked[me] = false;
     }
     --g_inside;
-    g_log.push_back("X" + std::to_string(me) + ":" + name);
+    g_log.push_back("X" + std::to_string(me) + ":" + Esc(name));
   }
   return vz::Factory(name, fallback);
 }
@@ -116,7 +130,7 @@ std::string RunSchedule(const std::string& line) {
     if (e[0] == 'S') {
       const size_t c = e.find(':');
       const int t = std::atoi(e.substr(1, c - 1).c_str());
-      const std::string name = e.substr(c + 1);
+      const std::string name = Unesc(e.substr(c + 1));
       Worker* w = worker(t);
       std::unique_lock<std::mutex> l(g_mu);
       const size_t target = w->queue.size() + 1;
@@ -161,7 +175,7 @@ std::string RunSchedule(const std::string& line) {
       id = static_cast<int>(k) + 1;
     }
     const bool nameok = r.tz.name() == (id == 0 ? std::string("UTC") : r.name);
-    os << "R" << r.t << ":" << r.name << ":" << (r.ok ? 1 : 0) << ":" << id << ":" << (nameok ? 1 : 0) << " ";
+    os << "R" << r.t << ":" << Esc(r.name) << ":" << (r.ok ? 1 : 0) << ":" << id << ":" << (nameok ? 1 : 0) << " ";
   }
   os << "|";
   for (const std::string& s : g_log) os << " " << s;
